@@ -299,3 +299,42 @@ def task_kind_is_tested_on_the_task_itself(ctx):
                       'status announced for the pending request belongs to another request', f)
     if n < 2:
         raise AnchorMissing('reads of .newstate / .kwds of task objects not found in statemachine.py / states.py')
+
+
+@rule('C14.R8', min_instances=3)
+def each_run_starts_clean(ctx):
+    """every run starts with exactly its own attributes: cycle() clears cleanup_reason when it picks the posted task up
+    (otherwise the next stop / restart of the NEW run is never cleaned up: `next_task and not cleanup_reason` stays false),
+    enters the requested state and applies the keywords of that Start; start() gives `cleanup` a default of None, so that the
+    cleanup function of the previous run is not inherited; the returned state of a state function is entered"""
+    m = ctx.m
+    f = _m(m, 'cycle')
+    ctx.analysed(f)
+    cfg = CFG(f.node, m, f.module)
+    swaps = [i for t, v, s in attr_stores(f.node) if t.attr == 'next_task' for i in cfg.node_of(s)]
+    clr = [i for t, v, s in attr_stores(f.node) if t.attr == 'cleanup_reason' and isinstance(v, ast.Constant) and v.value is None for i in cfg.node_of(s)]
+    enter = [c for c in calls_in(f.node) if call_attr(c) == '_new_state' and c.args and 'newstate' in src(c.args[0])]
+    upd = [c for c in calls_in(f.node) if call_attr(c) == '_update_attributes']
+    ok = bool(swaps) and bool(clr) and bool(enter) and all(cfg.all_paths_pass(swaps, cfg.node_of(c), clr, exc=False) for c in enter)
+    ctx.check(ok, f'{f.qualname}:cleanup_reason cleared at task pick-up', f.node, 'self.cleanup_reason = None between the swap and the entry of the new state',
+              'the reason of the previous clean-up survives into the new run: an interruption of the new run is not cleaned up', f)
+    ctx.check(bool(upd) and bool(enter), f'{f.qualname}:requested state entered with its attributes', f.node, '_new_state(action.newstate); _update_attributes(action.kwds)',
+              'the posted Start is not carried out completely (state entered / keywords applied)', f)
+    loops = [n for n in body_walk(f.node) if isinstance(n, ast.For)]
+    inner_enter = [c for c in calls_in(f.node) if call_attr(c) == '_new_state' and c.args and src(c.args[0]) == 'ret']
+    ctx.check(bool(inner_enter), f'{f.qualname}:returned state is entered', f.node, '_new_state(ret)', 'the state returned by a state function is never entered', f)
+    for t in cfg.nodes:
+        if t.kind == 'test' and src(t.ast).replace('not ', '') == 'ret':
+            neg = src(t.ast).startswith('not ')
+            ids = {i for c in inner_enter for i in cfg.node_of(c) if any(a is getattr(t.ast, 'cfg_owner', None) for a in ancestors(c))}
+            if ids:
+                ctx.check(ids <= cfg.reach([t.id], labels={'F' if neg else 'T'}, avoid=[t.id]), f'{f.qualname}:clean-up result entered when there is one', t.ast,
+                          '_new_state(ret) on the side where ret is set', f'`{src(t.ast)}`: _new_state(None) is called and a returned clean-up state is ignored', f)
+    s = _m(m, 'start')
+    ctx.analysed(s)
+    cfgs = CFG(s.node, m, s.module)
+    dflt = [i for c in calls_in(s.node) if call_attr(c) == 'setdefault' and c.args and isinstance(c.args[0], ast.Constant) and c.args[0].value == 'cleanup' for i in cfgs.node_of(c)]
+    posts = [i for t, v, st in attr_stores(s.node) if t.attr == 'next_task' for i in cfgs.node_of(st)]
+    ctx.check(bool(dflt) and all(cfgs.dominates(dflt, i) for i in posts), f'{s.qualname}:cleanup defaults to None for every start', s.node,
+              "kwds.setdefault('cleanup', None) before the task is posted",
+              'a start without cleanup keyword inherits the cleanup function of the previous run: it is executed for a run that never asked for it', s)
